@@ -35,6 +35,8 @@ type script struct {
 	Threshold int      `json:"threshold"`
 	Expiry    bool     `json:"expiry"`
 	Policy    []string `json:"policy"`
+	Burst     bool     `json:"burst"`  // free-running burst: functions hold HoldMs instead of waiting at a gate
+	HoldMs    int      `json:"holdMs"`
 }
 
 var (
@@ -59,7 +61,11 @@ func body(t *mtask) func(ctx context.Context) error {
 			sch.Bind(t.ID)
 		}
 		emit(map[string]any{"e": "mbegin", "i": t.ID})
-		sch.Yield("fn", t.ID)
+		if sc.Burst {
+			time.Sleep(time.Duration(sc.HoldMs) * time.Millisecond)
+		} else {
+			sch.Yield("fn", t.ID)
+		}
 		emit(map[string]any{"e": "mend", "i": t.ID})
 		switch t.Out {
 		case "err":
@@ -213,6 +219,10 @@ func main() {
 		os.Exit(2)
 	}
 	maxDelay := 10 * time.Second
+	if sc.Burst {
+		maxDelay = 10 * time.Minute
+		sch.Free()
+	}
 	if sc.Expiry {
 		maxDelay = 60 * time.Millisecond
 	}
